@@ -160,6 +160,24 @@ theorem C14_partial_deadline {s : St} (h : Reachable s) (t : Tid) (hc : inCall s
       simp [blocked, blockedInPoll, blockedOnCond, hz, hw, expiredAt, this]
     · simp [blocked, blockedInPoll, blockedOnCond, hp, hz]
 
+/-- a ready cell holds the peer's answer (publication order), restated here for the return theorem -/
+theorem publication {s : St} (h : Reachable s) (q : Seq) (hr : (s.cells q).ready = true) :
+    s.completions q = 1 ∧ ∃ e v, (s.cells q).isExc = some e ∧ (s.cells q).obj = some v ∧ s.answer q = some (e, v) := by
+  have i := invS_of_reachable h
+  obtain ⟨hc, ho, he⟩ := i.ready_compl q hr
+  refine ⟨hc, ?_⟩
+  cases hobj : (s.cells q).obj with
+  | none => simp [hobj] at ho
+  | some v =>
+    cases hexc : (s.cells q).isExc with
+    | none => simp [hexc] at he
+    | some e =>
+      obtain ⟨e', h1⟩ := i.obj_answer q v hobj
+      obtain ⟨v', h2⟩ := i.exc_answer q e hexc
+      rw [h1] at h2
+      cases h2
+      exact ⟨e, v, rfl, rfl, h1⟩
+
 /-- **Partial result 3: no wrong result.**  Whatever a finished call returns is the peer's answer to that
 very request (the stall delays the caller; it never hands it a wrong or unpublished value). -/
 theorem C14_partial_value {s : St} (h : Reachable s) (t : Tid) (e : Option Bool) (o : Option Nat)
@@ -167,14 +185,109 @@ theorem C14_partial_value {s : St} (h : Reachable s) (t : Tid) (e : Option Bool)
     ∃ e' v, s.answer (s.loc t).seq = some (e', v) ∧ e = some e' ∧ o = some v :=
   (invS_of_reachable h).result_ok t e o hb hr
 
+/-- **Classification of every stall (state form).**  Whenever a client is blocked although its result is ready:
+the result was popped and published by ANOTHER thread (`receiver ≠ waiter`), and the client is in exactly one of
+two positions — inside `poll()` HOLDING the receive lock with nothing to read and the stream open (it acquired the
+lock after the receiver's release: the harness's `waiter-acquires-…` / `…-acquires-after` shapes), or asleep in
+the condition's wait-set (queued behind the receive lock, nobody having notified since: the `…-no-notify-after`
+shape).  The harness signatures refine these two positions by the order of the readiness test, the lock
+acquisition and the publication in the trace; the model state has no history, so that order is not a Lean
+statement. -/
+theorem C14_stall_classification {s : St} (h : Reachable s) (t : Tid) (hc : inCall s t = true)
+    (hr : (s.cells (s.loc t).seq).ready = true) (hb : blocked s t = true) :
+    (∃ u, s.popper (s.loc t).seq = some u ∧ u ≠ t) ∧
+    (((s.loc t).pc = .p0 ∧ s.recvLock = some t ∧ s.chan = [] ∧ s.eof = false ∧ s.closed = false) ∨
+     ((s.loc t).pc = .zz ∧ t ∈ s.waiters ∧ s.condLock ≠ some t)) := by
+  constructor
+  · obtain ⟨u, hu⟩ := ready_popped h _ hr
+    refine ⟨u, hu, fun e => ?_⟩
+    subst e
+    exact C14_stall_needs_other_receiver h u hc hr hb hu
+  · have hL := invL_of_reachable h
+    simp only [blocked, Bool.or_eq_true] at hb
+    rcases hb with hb | hb
+    · simp only [blockedInPoll, Bool.and_eq_true, decide_eq_true_eq, Bool.not_eq_true', List.isEmpty_iff] at hb
+      obtain ⟨⟨⟨⟨hp, hch⟩, _⟩, he⟩, hcl⟩ := hb
+      exact .inl ⟨hp, (hL.recv_iff t).1 (by rw [hp]; rfl), hch, he, hcl⟩
+    · simp only [blockedOnCond, Bool.and_eq_true, decide_eq_true_eq, Bool.not_eq_true', List.contains_iff_mem] at hb
+      obtain ⟨⟨hp, hw⟩, _⟩ := hb
+      refine .inr ⟨hp, hw, fun e => ?_⟩
+      have := (hL.cond_iff t).2 e
+      rw [hp] at this; cases this
+
+/-- **Bounded stall, release.**  A client blocked in `poll()` is enabled again as soon as a frame arrives, the
+stream ends, the connection is closed, or its deadline is reached; a client asleep on the condition as soon as it
+is notified or its deadline is reached. -/
+theorem stalled_waiter_released {s : St} (t : Tid) :
+    ((s.loc t).pc = .p0 → (s.chan ≠ [] ∨ s.eof = true ∨ s.closed = true ∨ expiredAt (s.loc t).dl s.now = true) →
+        enabled s t = true) ∧
+    ((s.loc t).pc = .zz → (t ∉ s.waiters ∨ expiredAt (s.loc t).wdl s.now = true) → enabled s t = true) := by
+  constructor
+  · intro hp hc
+    rcases hc with h | h | h | h
+    · exact p0_enabled hp (.inl h)
+    · exact p0_enabled hp (.inr (.inl h))
+    · exact p0_enabled hp (.inr (.inr h))
+    · by_cases hcl : s.closed = true
+      · exact p0_enabled hp (.inr (.inr hcl))
+      · cases hch : s.chan with
+        | cons f r => exact p0_enabled hp (.inl (by rw [hch]; simp))
+        | nil =>
+          by_cases he : s.eof = true
+          · exact p0_enabled hp (.inr (.inl he))
+          · simp [enabled, stepRun, hp, doP0, hcl, hch, he, h]
+  · intro hp hc
+    rcases hc with h | h
+    · simp [enabled, stepRun, hp, doZz, h]
+    · by_cases hw : t ∈ s.waiters
+      · simp [enabled, stepRun, hp, doZz, hw, h]
+      · simp [enabled, stepRun, hp, doZz, hw]
+
+/-- **Bounded stall, return.**  Once released, a client whose result is ready does not enter `serve` again: at the
+loop test it leaves the loop, passes the final readiness test, and returns the peer's answer to its own request;
+and a published result stays published under every step of every actor. -/
+theorem released_waiter_returns {s s' : St} (h : Reachable s) (t : Tid) (_hs : (s.loc t).hasSeq = true)
+    (hr : (s.cells (s.loc t).seq).ready = true) (hst : step s (.run t) = some s') :
+    ((s.loc t).pc = .w0 → (s'.loc t).pc = .w9) ∧
+    ((s.loc t).pc = .w9 → (s'.loc t).pc = .w10) ∧
+    ((s.loc t).pc = .w10 → (s'.loc t).pc = .idle ∧
+        ∃ e v, s.answer (s.loc t).seq = some (e, v) ∧ (s'.loc t).result = some (.value (some e) (some v))) := by
+  simp only [step, stepRun] at hst
+  refine ⟨fun hp => ?_, fun hp => ?_, fun hp => ?_⟩
+  · rw [hp] at hst; simp only [Option.some.injEq] at hst; subst hst; simp [doW0, hr]
+  · rw [hp] at hst; simp only [Option.some.injEq] at hst; subst hst; simp [doW9, hr]
+  · rw [hp] at hst; simp only [Option.some.injEq] at hst; subst hst
+    obtain ⟨_, e, v, he, hv, ha⟩ := Rpyc.Props.C14.publication h _ hr
+    exact ⟨by simp [doW10], e, v, ha, by simp [doW10, he, hv]⟩
+
+theorem published_stays_published {s s' : St} (a : Actor) (hs : step s a = some s') (q : Seq)
+    (hr : (s.cells q).ready = true) : (s'.cells q).ready = true :=
+  ready_stable a hs q hr
+
+/-- **Corollary: with no second serving thread the property holds.**  In every run in which only thread `t` (in any
+roles, one after the other: caller, polling thread, background thread) and the environment act, `t` is never
+blocked with its result ready: `C14_statement` restricted to single-threaded use of the connection. -/
+theorem C14_holds_without_second_thread (t : Tid) (as : List Actor) (s : St) (hall : ∀ a ∈ as, a.byOrEnv t)
+    (hrun : run init as = some s) (hc : inCall s t = true) (hr : (s.cells (s.loc t).seq).ready = true) :
+    blocked s t = false := by
+  obtain ⟨hreach, hp⟩ := onlyPopper_run as init s hall .init (fun q u e => by simp [init] at e) hrun
+  obtain ⟨u, hu⟩ := ready_popped hreach _ hr
+  have : u = t := hp _ _ hu
+  subst this
+  exact C14_partial_self hreach u hc hr hu
+
 set_option linter.unusedSimpArgs false in
-/-- **Dispatching a reply makes no request of its own.**  Between receiving a frame and publishing the result
-(`r0 … d5`: release, notify, `_dispatch`, `_seq_request_callback`, `AsyncResult.__call__`) a thread sends
-nothing and takes no sequence number: the window between the lock hand-off and the publication contains no
-network round trip.  This is the assumption under which the two listed schedule shapes are the only stalls; the
-correspondence checks it on the real code for by-reference results with a DEBUG logger configured (a dispatcher
-that sends a request there — e.g. `repr()` of a proxy in a log line — is rejected by the model, and the stall it
-causes carries the signature `C14:dispatcher-blocks-in-nested-request-before-publication`). -/
+/-- **Dispatching a reply makes no request of its own (in the model).**  Between receiving a frame and publishing the result
+(`r0 … d5`: release, notify, `_dispatch`, `_seq_request_callback`, `AsyncResult.__call__`) a model thread sends
+nothing and takes no sequence number.  This is a fact about the MODEL's steps, true by construction.  Of the real
+code it holds for results that travel by value or are references to builtin classes (checked by trace acceptance,
+also with a DEBUG logger configured: a dispatcher that sends a request there — e.g. `repr()` of a proxy in a log
+line — is rejected, and the stall it causes carries the signature
+`C14:dispatcher-blocks-in-nested-request-before-publication`).  It does NOT hold for a reference to an instance of
+a user class: `_unbox` → `_netref_factory` makes a `sync_request(HANDLE_INSPECT)` on the dispatching thread,
+between the lock hand-off and the publication.  That nested call is represented as a fresh logical thread of the
+machine (the locks have no owner), so every theorem still applies to those runs; the stalls it widens are
+reproduced on the real code (witness `userclass-priority`) and fall under the first listed signature. -/
 theorem dispatcher_sends_no_request {s s' : St} (t : Tid)
     (hp : (s.loc t).pc.holding = true ∨ (s.loc t).pc.completing = true) (hs : step s (.run t) = some s') :
     s'.outstanding = s.outstanding ∧ s'.seqCounter = s.seqCounter ∧ s'.issued = s.issued := by
